@@ -12,7 +12,7 @@ from common import *
 from props import c19
 
 TORN_CLASSES = ["zero", "envelope", "inner", "last"]
-CFG = {"replayIsComplete": True, "atomicWrite": False, "loadIsPerEntry": True}     # probed per run (see probe)
+CFG = {"replayIsComplete": True, "atomicWrite": False, "loadIsPerEntry": True, "replayOrderPreserved": True}     # probed per run (see probe)
 STARTUPS = []                                             # (compress, listing pattern b/r, constructor outcome) per restart after damage
 DAMAGE_STATS = {"variants": 0, "listing_positions": {}, "adjacent_pairs": 0, "compressed": 0, "plain": 0}
 
@@ -404,8 +404,9 @@ def variants(hist):
     ops = base_ops(hist)
     out = []
     if hist.get("crash", True):
-        for k in range(len(ops) + 1):
-            out.append((f"crash@{k}", ops[:k] + [("crash",)] + ops[k:]))
+        for k in hist.get("crash_points", range(len(ops) + 1)):
+            if k <= len(ops):
+                out.append((f"crash@{k}", ops[:k] + [("crash",)] + ops[k:]))
     if hist.get("damage"):
         # disk faults: once every instance is externalised, the state file of EACH instance alone and of EVERY pair of
         # instances (hence first / middle / last and every adjacent pair of the directory listing, whatever its order)
@@ -504,7 +505,7 @@ def check_variant(hist, name, ops, un_by_step, base, model_out, runner=None):
                 viol.append(("correspondence-files", f"{name}: after op {oi} {op[:2]} files are {real_f}, model says {m_files}"))
         if viol:
             break
-    if not viol and exp_lines != real_lines and CFG["replayIsComplete"]:
+    if not viol and exp_lines != real_lines and CFG["replayIsComplete"] and CFG["replayOrderPreserved"]:
         i = next(i for i, (a, b) in enumerate(zip(exp_lines, real_lines)) if a != b)
         viol.append(("correspondence-answers", f"{name}: step request #{i}: (crashed kind, uninterrupted kind, equal) real {real_lines[i]} model {exp_lines[i]}"))
     return viol
@@ -624,6 +625,30 @@ def damage_histories(quick):
     return out
 
 
+def boundary_histories(quick):
+    """Sessions whose step labels cross a boundary where the order of the labels as TEXT differs from their order as numbers
+    (9.0 -> 10.0, 9.5 -> 10.0, -2.0 -> -1.0, 99.0 -> 100.0, 0.0 .. 11.0), settings at several early steps, crash points
+    exhaustive (hence also after the boundary), both adapter modes."""
+    out = []
+    shapes = [(9.0, 1.0, [C5, {"k": "empty"}, K3, {"k": "empty"}]),
+              (9.0, 0.5, [C5, K3, {"k": "empty"}, {"k": "nobody"}]),
+              (-2.0, 1.0, [C5, {"k": "empty"}, K3, {"k": "empty"}]),
+              (5.0, 1.0, [C5, {"k": "empty"}, K3, {"k": "empty"}, {"k": "empty"}, {"k": "empty"}, {"k": "empty"}]),
+              (0.0, 1.0, [{"k": "empty"}, C5, K3, {"k": "set", "settings": {"smA": {"a": {"constants": {"c": 7.0}}}}}] + [{"k": "empty"}] * 9)]
+    if not quick:
+        shapes += [(99.0, 1.0, [C5, K3, {"k": "empty"}]), (8.0, 0.5, [C5, {"k": "empty"}, K3, {"k": "empty"}, {"k": "empty"}, {"k": "empty"}]),
+                   (-10.5, 0.5, [C5, K3, {"k": "empty"}, {"k": "empty"}])]
+    for n, (start, dt, steps) in enumerate(shapes):
+        for compress in ((False, True) if not quick or len(steps) < 7 else (False,)):
+            h = {"spec": {"start": start, "dt": dt, "stop": start + 20 * dt}, "compress": compress, "torn": False,
+                 "instances": [{"sms": ["smA"], "scs": ["a"], "eqs": ["s", "c", "g"], "steps": copy.deepcopy(steps)}]}
+            if len(steps) >= 7 and quick:
+                n_ops = len(steps) + 1                      # start + steps; the interesting crash points are after label 10.0
+                h["crash_points"] = [3] + list(range(n_ops - 3, n_ops + 1))
+            out.append(h)
+    return out
+
+
 WITNESS_LATE = {"spec": {"start": 1.0, "dt": 1.0, "stop": 10.0}, "compress": False, "torn": False,
                 "instances": [{"sms": ["smA"], "scs": ["a"], "eqs": ["s", "c"],
                                "steps": [{"k": "empty"}, {"k": "empty"}, copy.deepcopy(C5)]}]}
@@ -673,8 +698,35 @@ def probe(base):
     facts["replayIsComplete"] = facts["restoreReplaysSettings"] and not any(k == "continuation-differs" for k, _, _ in v)
     facts["atomicWrite"] = probe_atomic(base)
     facts["loadIsPerEntry"] = probe_load(base)
-    CFG["replayIsComplete"], CFG["atomicWrite"], CFG["loadIsPerEntry"] = facts["replayIsComplete"], facts["atomicWrite"], facts["loadIsPerEntry"]
+    facts["replayOrderPreserved"] = probe_order(base)
+    for k in CFG:
+        CFG[k] = facts[k]
     return facts
+
+
+def probe_order(base):
+    """the adapter round trip (save_instance + load_instance, both modes) returns the logs with their steps in the order
+    they were logged, also when the labels sort differently as text (9.0, 10.0 / -2.0, -1.0 / 99.5, 100.0)"""
+    import contextlib, io
+    try:
+        from BPTK_Py import FileAdapter
+        from BPTK_Py.externalstateadapter import InstanceState
+        ok = True
+        for compress in (False, True):
+            path = os.path.join(base, "state-order")
+            shutil.rmtree(path, ignore_errors=True); os.makedirs(path)
+            for n, keys in enumerate(([9.0, 10.0, 11.0], [-2.0, -1.0, 0.0], [99.5, 100.0], [0.0, 1.0, 2.0, 3.0, 4.0, 5.0, 6.0, 7.0, 8.0, 9.0, 10.0, 11.0])):
+                state = {"settings_log": {k: {} for k in keys}, "results_log": {k: {"smA": {"a": {"s": {k: 1.0}}}} for k in keys}, "step": keys[-1] + 1.0}
+                with contextlib.redirect_stdout(io.StringIO()):
+                    ad = FileAdapter(compress, path)
+                    ad.save_instance(InstanceState(copy.deepcopy(state), f"o{n}", "t", {}, state["step"]))
+                    back = FileAdapter(compress, path).load_instance(f"o{n}")
+                ok = ok and back is not None and [float(k) for k in back.state["settings_log"]] == keys \
+                    and [float(k) for k in back.state["results_log"]] == keys
+            shutil.rmtree(path, ignore_errors=True)
+        return ok
+    except Exception:
+        return False
 
 
 def probe_load(base):
@@ -733,9 +785,12 @@ def gen_lean(facts):
            f"leaves the previous state file readable: {facts['atomicWrite']}; load_state treats every listed file on its own (damaged entries "
            f"dropped, every other one decompressed): {facts['loadIsPerEntry']} -/\n"
            f"def cfg : Cfg := {{ replayIsComplete := {b(facts['replayIsComplete'])}, atomicWrite := {b(facts['atomicWrite'])}, "
-           f"loadIsPerEntry := {b(facts['loadIsPerEntry'])} }}\n"
+           f"loadIsPerEntry := {b(facts['loadIsPerEntry'])}, replayOrderPreserved := {b(facts['replayOrderPreserved'])} }}\n"
+           f"-- the adapter round trip keeps the order of the logged steps (labels 9.0,10.0 / -2.0,-1.0 / 99.5,100.0 / 0.0..11.0): {facts['replayOrderPreserved']}\n"
            "theorem holds_wave1 {σ ρ : Type} (d : Dyn σ ρ) : C20_full d := C20_full_holds d\n#print axioms holds_wave1\n")
-    if facts["replayIsComplete"] and not facts["loadIsPerEntry"]:
+    if facts["replayIsComplete"] and facts["loadIsPerEntry"] and not facts["replayOrderPreserved"]:
+        out += "theorem violated : ¬ C20_full_cfg cfg lazyDyn := C20_witness_sorted_keys cfg (by decide)\n#print axioms violated\n"
+    elif facts["replayIsComplete"] and not facts["loadIsPerEntry"]:
         out += ("theorem violated {σ ρ : Type} (d : Dyn σ ρ) : ¬ C20_full_cfg cfg d := C20_witness_skipping_load cfg (by decide) d\n"
                 "#print axioms violated\n")
     elif facts["replayIsComplete"]:
@@ -780,7 +835,7 @@ def _run(chk, base):
                        "points; fsync/rename ordering of the file system is trusted", "SD sessions; start/dt on the dyadic or the decimal lattice (see C19)"]
     nmax = 6 if chk.quick else 12
     rng = chk.rng.fork("c20-hist")
-    hists = [WITNESS, WITNESS_LATE] + damage_histories(chk.quick) + late_settings_histories(chk.quick) + [gen_history(rng, nmax) for _ in range(8 if chk.quick else 40)]
+    hists = [WITNESS, WITNESS_LATE] + boundary_histories(chk.quick) + damage_histories(chk.quick) + late_settings_histories(chk.quick) + [gen_history(rng, nmax) for _ in range(5 if chk.quick else 40)]
     chk.cov["rule"] = (f"per generated history (1-3 instances, <= {nmax} steps, settings / {{}} / no body, both adapter modes): one uninterrupted run, then one "
                        "run per crash point k in 0..N (exhaustive) and one per stepping request x torn-write class {0, inside envelope, inside inner state "
                        "string, length-1} (with an atomic state write the request that died is retried), two runs with crashes at several positions; "
@@ -792,7 +847,7 @@ def _run(chk, base):
     del STARTUPS[:]
     DAMAGE_STATS.update({"variants": 0, "listing_positions": {}, "adjacent_pairs": 0, "compressed": 0, "plain": 0})
     dist = {"histories": 0, "crash_variants": 0, "torn_variants": 0, "multi_crash_variants": 0, "instances": {1: 0, 2: 0, 3: 0, 4: 0}, "compressed": 0,
-            "random_interleavings": 0, "quiet_steps_then_settings": 0, "non_dyadic": 0}
+            "random_interleavings": 0, "quiet_steps_then_settings": 0, "non_dyadic": 0, "label_text_order_differs": 0}
     for h in hists:
         n, viol = run_history(h, base)
         total += n
@@ -804,6 +859,8 @@ def _run(chk, base):
         DAMAGE_STATS["variants"] += nd
         DAMAGE_STATS["compressed" if h["compress"] else "plain"] += nd
         dist["random_interleavings"] += int("order" in h)
+        labels = [h["spec"]["start"] + i * h["spec"]["dt"] for i in range(max(len(i_["steps"]) for i_ in h["instances"]))]
+        dist["label_text_order_differs"] += int(sorted(labels, key=lambda x: repr(float(x))) != labels)
         dist["non_dyadic"] += int(h["spec"]["dt"] in c19.DTS10)
         dist["quiet_steps_then_settings"] += int(any(i["steps"] and i["steps"][0]["k"] != "set" and any(s_["k"] == "set" for s_ in i["steps"][1:])
                                                      for i in h["instances"]))
